@@ -3,7 +3,8 @@ import re
 from .core import chain, peel, phi_alts, is_call, walk
 
 
-def explore(body, start_bb, root_is, mark_pred, init_constraints=None, max_paths=4000, stop_pred=None):
+def explore(body, start_bb, root_is, mark_pred, init_constraints=None, max_paths=4000, stop_pred=None,
+            switch_hook=None):
     """Enumerate acyclic paths from start_bb to blocks without successors.
     - root_is(term) -> bool : identifies the tracked value (e.g. the result of a call)
     - mark_pred(body, bb) -> bool : block `bb` contains a marking event (e.g. a latch call)
@@ -67,6 +68,20 @@ def explore(body, start_bb, root_is, mark_pred, init_constraints=None, max_paths
                 if root_is(root):
                     key = tuple(names)
                     break
+        if key is None and si is not None and switch_hook is not None:
+            hk = switch_hook(body, bb, si)
+            if hk is not None:
+                hkey, hedges = hk
+                for lab, tgt in hedges.items():
+                    if tgt in path:
+                        continue
+                    prev = cons.get(hkey)
+                    if prev is not None and prev != lab:
+                        continue
+                    c2 = dict(cons)
+                    c2[hkey] = lab
+                    stack.append((tgt, marked, c2, path + [tgt], vals))
+                continue
         known = None
         if bb in body.switches and key is None:
             on_ = body.switches[bb]["on"]
@@ -248,3 +263,64 @@ def refine(variants, cons, err_key):
                     v = "%s.!%s" % (a, "|".join(sorted(lvl2[1])))
         res.add(v)
     return res
+
+
+def paths_to(body, start_bb, target_bb, max_paths=4000):
+    """all feasible (constant-propagated) acyclic paths from start_bb to target_bb"""
+    leaves = explore(body, start_bb, lambda t: False, lambda b, bb: False, max_paths=max_paths,
+                     stop_pred=lambda b, bb: bb == target_bb)
+    out = []
+    overflow = False
+    for l in leaves:
+        if l["kind"] == "limit":
+            overflow = True
+        if l["kind"] == "stop":
+            out.append(l["path"])
+    return out, overflow
+
+
+def every_path_passes(body, start_bb, target_bb, via_edges=(), via_blocks=()):
+    """path-sensitive must-pass: (ok, offending path | None, number of paths)"""
+    ps, overflow = paths_to(body, start_bb, target_bb)
+    if overflow:
+        return False, ["<path limit exceeded>"], len(ps)
+    ve = set(via_edges)
+    vb = set(via_blocks)
+    for p in ps:
+        hit = any(b in vb for b in p[:-1])
+        if not hit:
+            for i in range(len(p) - 1):
+                if (p[i], p[i + 1]) in ve:
+                    hit = True
+                    break
+        if not hit:
+            return False, p, len(ps)
+    return True, None, len(ps)
+
+
+def must_dataflow(body, gen_edges, kill_block):
+    """forward must analysis at block granularity.  A fact is generated on `gen_edges` ((src,dst) pairs) and
+    killed by the terminator/statements of blocks with kill_block(bb) true.  Returns IN: bb -> bool
+    (fact holds on entry of bb on every path)."""
+    gen = set(gen_edges)
+    IN = {b: True for b in body.reachable}
+    IN[0] = False
+    order = sorted(body.reachable)
+    changed = True
+    while changed:
+        changed = False
+        for b in order:
+            if b == 0:
+                continue
+            preds = [p for p in body.pred[b] if p in body.reachable]
+            val = bool(preds)
+            for p in preds:
+                if (p, b) in gen:
+                    e = True
+                else:
+                    e = IN[p] and not kill_block(p)
+                val = val and e
+            if val != IN[b]:
+                IN[b] = val
+                changed = True
+    return IN
